@@ -144,10 +144,14 @@ CLAIMS.update({
              "(gen_chains), its weights ARE the standard definitions (gen_weights_*: 12 in = 1 ft, 3 ft = 1 yd, 1760 yd = 1 mile, 16 oz = 1 lb, 14 lb = 1 stone, "
              "decimal prefixes, 8 bit = 1 byte, 1024 multiples), bridges are 1 in = 25.4 mm and 1 oz = 28349.5231 mg with inverse codes (gen_bridges), "
              "names of different kinds never resolve (gen_kinds_separate). + - convert the right operand, * / by numbers keep the unit, quantity / "
-             "quantity is a number (add_converts_right, scale_keeps_unit, ratio_is_number). Partial in one step: that execute_code (text substitution, "
-             "tokenizer, parser, interpreter) multiplies by the code's factor is the hypothesis ExecIsMult, decided bit-for-bit by correspondence and "
-             "against exact rationals on all 33x33 pairs. Three defects (two wrong factors, cross-kind conversion) were repaired in /repo.",
-        note="Trusted: Lean kernel + 3 axioms; translator's reading of code texts (cross-checked by an independent Python reading and by the implementation); doubles compared rel 1e-9.",
+             "quantity is a number (add_converts_right, scale_keeps_unit, ratio_is_number). That execute_code (text substitution, tokenizer, parser, "
+             "interpreter) multiplies by the code's factor — the hypothesis ExecIsMult of these theorems — is itself a theorem on the model since SCP.C12Exec: "
+             "executeCode_mul/_div/_id for every number type and convention (codeLex_mono, strReplace_prefix, SCP.Lex.lex_render, SCP.C02.parse_eval), "
+             "gen_codes_ok (kernel-decided: every configured code is '{value}', '{value} * K' or '{value} / K' and the translator's factor equals the model "
+             "reader's value of K) and gen_codes_multiply (executeCode code v = v * mult code). Partial in one hypothesis: the amount's printed text "
+             "(f64::to_string) reads back as the amount; it is evaluated by the driver on every amount and result of the conversion cases, and the doubles are "
+             "compared bit-for-bit by correspondence and against exact rationals on all 33x33 pairs. Three defects (two wrong factors, cross-kind conversion) were repaired in /repo.",
+        note="Trusted: Lean kernel + 3 axioms; f64::to_string / str::parse round trip of finite doubles (Rust core); doubles compared rel 1e-9. The translator's reading of code texts is no longer trusted (gen_codes_ok).",
         ref="§7 C12"),
 })
 
@@ -233,6 +237,8 @@ CLAIMS.update({
              "against the specification's return values, against a FRESH calculator replaying only the survivors, against exact chain factors, and "
              "replayed op by op on the Lean model FROM THE TEXTS: the model tokenises the patterns itself - rules in their own language, unit items in en "
              "(SC.Api; addRuleText_known_language / _unknown_language / _false_noop / _other_languages, addDynamicTypeItemText_*) - and lexes every line. "
+             "set_date_rule, which rebuilds the small_date rule inside the same rule list, is modelled (SC.setDateRule) and interleaved in the histories: it keeps the "
+             "registered rules of every language, in order, commutes with registrations and is idempotent (SCP.C18Date.setDateRule_api / _named / _add_comm / _idem / _frame). "
              "Two panics repaired earlier in /repo (index 0, "
              "pattern without value field).",
         note="Trusted: Lean kernel + 3 axioms; rule behaviours limited to six canned RuleTrait implementations shared by harness and model; pattern and line lexing is the model's (regexes regenerated from config.json).",
